@@ -308,6 +308,7 @@ func (r *Run) Finish() int {
 	newViol := 0
 	known := 0
 	var knownLines, violLines []string
+	var notReproduced []string
 	for _, s := range sigs {
 		v := viol[s]
 		if f := matchFinding(findings, r.Property, s); f != nil {
@@ -321,7 +322,8 @@ func (r *Run) Finish() int {
 			return 2
 		}
 		if r.Rerun != nil {
-			for k := 0; k < 5; k++ {
+			reproduced := true
+			for k := 0; k < 5 && reproduced; k++ {
 				again := r.Rerun(cj)
 				ok := false
 				for _, a := range again {
@@ -331,8 +333,14 @@ func (r *Run) Finish() int {
 				}
 				if !ok {
 					fmt.Fprintf(os.Stderr, "HARNESS-ERROR property=%s: violation sig=%s did not reproduce on re-run %d (case %s); not reported as a finding\n", r.Property, s, k+1, string(cj))
-					return 2
+					reproduced = false
 				}
+			}
+			if !reproduced {
+				// never reported as a violation; it makes the run a harness error unless another violation
+				// of this run does reproduce (then that one is reported and this one is listed in the evidence)
+				notReproduced = append(notReproduced, s)
+				continue
 			}
 		}
 		newViol++
@@ -344,6 +352,9 @@ func (r *Run) Finish() int {
 		os.WriteFile(path, b, 0o644)
 		fmt.Fprintf(os.Stderr, "violation sig=%s: %s\n  case: %s\n", s, v.v.Msg, string(cj))
 		violLines = append(violLines, fmt.Sprintf("VIOLATION property=%s replay=%s", r.Property, path))
+	}
+	if len(notReproduced) > 0 && newViol == 0 {
+		return 2
 	}
 	exhaustive := r.Exhaustive && !r.capped.Load()
 	// Nontrivial is a plain counter for enumerations that never repeat a case (distinct by construction)
@@ -364,6 +375,9 @@ func (r *Run) Finish() int {
 		"bounds":                        r.Bounds,
 		"known_findings_hit":            known,
 		"explanation":                   "every execution is a run of the real code from /repo's working tree; there is no separate model, so every explored trace is validated against the implementation by construction",
+	}
+	if len(notReproduced) > 0 {
+		cov["signatures_not_reproduced_on_rerun"] = notReproduced
 	}
 	for k, v := range extra {
 		cov[k] = v
